@@ -575,6 +575,8 @@ def sc1(p, res):
         if ent["verdict"] != "covered":
             continue
         n_mirror += 1
+        if uid not in pairs and p.cfg.startswith("ref") and p.fn(uid) is None and ("{impl#2}" in uid or "{impl#3}" in uid):
+            continue  # impl for an AVX backend: exists only with feature enable-avx (checked in the avx configurations)
         if uid not in pairs:
             res.bad("SC-1", uid, "anchor-lost:pair", "operation %s (mirror-form pair on the reference tree) no longer pairs with a companion size query" % uid)
             continue
